@@ -145,7 +145,7 @@ Qed.
 
 Theorem vegas_step_safe : exists o, vegas_step v s = Some o /\ VInv (o_st o) M.
 Proof.
-  unfold vegas_step.
+  unfold vegas_step, vegas_update.
   destruct (vegas_should_probe v (v_pcount v + 1)).
   { eexists; split; [reflexivity|]. cbn [o_st mk]. apply Inv_same; reflexivity. }
   destruct (feq (v_noload v) zero || flt (of_int (s_rtt s)) (v_noload v)).
